@@ -24,14 +24,26 @@ def node_bookkeeping(ck, P, X, rule, unit, elem_types, len_rec, len_field="len")
     """On every acyclic path of every function of `unit`: #node allocations that survive == #len++ and
     #node frees == #len--."""
     n = 0
+    # a node type may be spelt by its typedef name or by its struct tag, with or without top-level const
+    spell = set()
+    for t_ in elem_types:
+        spell.add(t_)
+    spell.add("struct _elem *")      # every node typedef of Lib/structs names a `struct _elem` of its own unit
+
+    def _is_elem(node_or_ev, decl=False):
+        cands = [node_or_ev.get("t", ""), node_or_ev.get("ct", "")]
+        for c in cands:
+            c = (c or "").replace("const ", "").replace("*const", "*").replace("* const", "*").strip()
+            if c in spell:
+                return True
+        return False
     for f in [f for f in P.funcs if f.unit == unit]:
         allocs, frees, incs, decs = [], [], [], []
         for ev in f.events():
             if ev.kind in ("decl", "assign") and ev.rhs is not None and is_alloc_call(ev.rhs):
-                t = (ev.e.get("t") if ev.kind == "decl" else strip(ev.lhs).get("t", ""))
-                if t in elem_types:
+                if _is_elem(ev.e if ev.kind == "decl" else (strip(ev.lhs) or {})):
                     allocs.append(ev)
-            elif is_free_call(ev) and ev.args and strip(ev.args[0]).get("t") in elem_types:
+            elif is_free_call(ev) and ev.args and _is_elem(strip(ev.args[0]) or {}):
                 frees.append(ev)
             elif ev.kind == "incdec":
                 l = strip(ev.lhs)
@@ -127,3 +139,29 @@ def itr_removed_guards(ck, P, X, rule, unit, prefix):
               "%s no longer tests itr->removed before acting: a second call on the same position operates on whatever node the stale slot designates" % f.name,
               witness=[("drop_branch", f.unit, f.name, g.block) for g in gs])
     return n
+
+
+def node_holders(ck, P, X, rule, unit, container_rec, node_typedef, structural):
+    """R-WHO-HOLDS: the container struct keeps node pointers only in its structural fields; any further node-pointer field (a lookup
+    cache, a "last" pointer) must be re-stored in every function that frees a node, on the way to or from the free."""
+    rec = P.records_by_unit.get((unit, container_rec)) or P.record(container_rec)
+    spell = {node_typedef + " *", "struct _elem *"}
+    holders = [f_["name"] for f_ in rec["fields"] if f_["t"].replace("const ", "").strip() in spell]
+    extra = [h for h in holders if h not in structural]
+    if not extra:
+        ck.ob(rule, "%s:%s node holders" % (unit, container_rec), set(structural) <= set(holders),
+              "node pointers are held only in the structural field(s) %s" % sorted(holders), nontrivial=False)
+        return
+    for f in [f for f in P.funcs if f.unit == unit]:
+        frees = [e for e in f.events() if is_free_call(e) and e.args and
+                 ((strip(e.args[0]) or {}).get("t", "").replace("const ", "").strip() in spell or (strip(e.args[0]) or {}).get("ct", "") == "struct _elem *")]
+        for fr in frees:
+            for h in extra:
+                st = [e for e in f.events() if e.kind == "assign" and strip(e.lhs)["k"] == "member" and strip(e.lhs)["field"] == h
+                      and strip(e.lhs).get("rec") == container_rec]
+                ok = any(f.ev_dominates(e, fr) or f.ev_dominates(fr, e) for e in st)
+                ck.ob(rule, f.site("free keeps %s.%s valid" % (container_rec, h)), ok,
+                      "%s re-stores %s.%s around the node free at line %d" % (f.name, container_rec, h, fr.line) if ok else
+                      "%s frees a node (line %d) while %s.%s may still point to it: the extra node pointer kept in the container is not invalidated on "
+                      "this removal path (iterator removal, clear and free reach it) — a later use dereferences freed memory or reports a removed element"
+                      % (f.name, fr.line, container_rec, h))
